@@ -2,7 +2,7 @@
 (* Generator configurations of Multi.tla (direction A, C05). *)
 EXTENDS Integers, Sequences, FiniteSets, TLC
 
-CONSTANTS MaxSteps, MaxPerSrc, Cuts, InstSetName, PanicSrcs, SyncSetName
+CONSTANTS MaxSteps, MaxPerSrc, Cuts, InstSetName, PanicSrcs, SyncSetName, TailSetName
 
 I(op, g, k) == [op |-> op, g |-> g, k |-> k]
 Two == {I("Merge", "Merge", 2), I("Merge", "MergeWith", 2), I("Merge", "MergeWith1", 2), I("Merge", "MergeAll", 2),
@@ -18,8 +18,10 @@ InstSet == CASE InstSetName = "two" -> Two [] InstSetName = "three" -> Three [] 
 NoSync == {[s |-> 0, k |-> "C"]}
 SyncSet == IF SyncSetName = "ends" THEN {[s |-> x, k |-> kk] : x \in 1..3, kk \in {"C", "E"}} ELSE NoSync
 
-VARIABLES m, st, phase, closed, unsub, log, h, sent, psrc, sync
-M == INSTANCE Multi WITH Insts <- InstSet, SyncEnds <- SyncSet
+TailSet == IF TailSetName = "cuts" THEN {"Take1", "Throw1"} ELSE {"none"}
+
+VARIABLES m, st, phase, closed, unsub, log, h, sent, psrc, sync, tail
+M == INSTANCE Multi WITH Insts <- InstSet, SyncEnds <- SyncSet, Tails <- TailSet
 Spec == M!Spec
 Grammar == M!Grammar
 ClosedReleasesAll == M!ClosedReleasesAll
